@@ -55,9 +55,9 @@ def _is_pattern(bs, pattern):
     return E.and_(*[E.eq(b, p) for b, p in zip(bs, pattern)])
 
 
-def _patterns(cls, n):
+def _patterns(signed, n):
     """MASK / TMASK byte patterns of an n-byte field (sign aware)."""
-    if getattr(cls, "signed", False):
+    if signed:
         mask = [0x7F] + [0xFF] * (n - 1)
         tmask = [0x7F] + [0xFF] * (n - 2) + [0xFE] if n > 1 else [0x7E]
     else:
@@ -83,10 +83,42 @@ def _num_equal(ctx, got, want):
     return abs(float(got) - float(factor) * base) <= 1e-9 * max(1.0, abs(float(got)))
 
 
-def h_decode(ctx, idx):
-    row = MM.ROWS[idx]
+# ---- synthetic values: the generic machinery (sign handling, MASK/TMASK patterns, limits) on value
+# classes declared by the harness through the library's own metaclass.  No value shipped with the library
+# is signed, so sign-awareness can only be exercised this way.
+
+SYN_BANK = L.MemoryBank(address=0xBE, last_address=0x60, has_lock=True)
+SYN = []       # (row, class, (mask, tmask, min, max), signed)
+
+
+def _declare_synthetic():
+    first = 3
+    for signed in (False, True):
+        for width in (1, 2, 3):
+            top = (1 << (8 * width - (1 if signed else 0))) - 1
+            for fl, (mask, tmask, mn, mx) in (("mt", (True, True, None, None)), ("t", (False, True, None, top - 2)),
+                                              ("lim", (False, False, -5 if signed else 3, 100))):
+                name = "Syn%s%d%s" % ("S" if signed else "U", width, fl)
+                attrs = {"bank": SYN_BANK, "signed": signed, "mask_supported": mask, "tmask_supported": tmask,
+                         "min_value": mn, "max_value": mx,
+                         "locations": tuple(L.MemoryLocation(first + i, type_=L.MemoryType.NVM_RW)
+                                            for i in range(width))}
+                cls = type(L.NumericValue)(name, (L.NumericValue,), attrs)
+                row = ("harness", "SYN_BANK", name, 0xBE, first, width, "NVM_RW", "num", None)
+                SYN.append((row, cls, (mask, tmask, mn, mx), signed))
+                first += width
+
+
+_declare_synthetic()
+
+
+def h_decode(ctx, idx, synthetic=False):
+    if synthetic:
+        row, cls, flags, signed = SYN[idx]
+    else:
+        row = MM.ROWS[idx]
+        cls, flags, signed = _find(row), MM.flags(row[2]), False      # no value of the standards is signed
     mod, bank, name, bankno, first, width, mtype, kind, param = row
-    cls = _find(row)
     tag = "%s/%s" % (bank, name)
     if cls is None:
         ctx.fail("no value class %s in %s" % (name, mod), key=tag + "/missing")
@@ -106,10 +138,10 @@ def h_decode(ctx, idx):
     # ---- reference
     payload = bs[1:] if kind == "scaled" else bs
     n = len(payload)
-    mask_p, tmask_p = _patterns(cls, n)
-    is_mask = E.and_(bool(cls.mask_supported), _is_pattern(payload, mask_p))
-    is_tmask = E.and_(bool(cls.tmask_supported), _is_pattern(payload, tmask_p))
-    signed = bool(getattr(cls, "signed", False))
+    mask_p, tmask_p = _patterns(signed, n)
+    sup_mask, sup_tmask, mn, mx = flags
+    is_mask = E.and_(sup_mask, _is_pattern(payload, mask_p))
+    is_tmask = E.and_(sup_tmask, _is_pattern(payload, tmask_p))
     v = _int_be(payload, signed) if kind not in ("str", "raw") else 0
     special = (param or {}).get("special", {}) if isinstance(param, dict) else {}
     is_special = E.or_(*[E.eq(v, c) for c in special]) if special else False
@@ -120,7 +152,6 @@ def h_decode(ctx, idx):
     if kind == "bin":
         invalid = E.not_(E.or_(E.eq(bs[0], 0), E.eq(bs[0], 1)))
     elif kind in ("num", "fixed", "temp", "scaled", "ver"):
-        mn, mx = getattr(cls, "min_value", None), getattr(cls, "max_value", None)
         invalid = E.and_(E.not_(is_special),
                          E.or_(E.lt(v, mn) if mn is not None else False, E.gt(v, mx) if mx is not None else False))
     else:
@@ -203,13 +234,19 @@ def h_decode(ctx, idx):
     return "value"
 
 
-def h_inverse(ctx, idx, strlen):
-    row = MM.ROWS[idx]
+def h_inverse(ctx, idx, strlen, synthetic=False):
+    if synthetic:
+        row, cls, flags, signed = SYN[idx]
+    else:
+        row = MM.ROWS[idx]
+        cls, signed = _find(row), False
     mod, bank, name, bankno, first, width, mtype, kind, param = row
-    cls = _find(row)
     tag = "%s/%s" % (bank, name)
     if kind == "num":
-        v = ctx.fresh("v", 0, (1 << (8 * width)) - 1)
+        if signed:
+            v = ctx.fresh("v", -(1 << (8 * width - 1)), (1 << (8 * width - 1)) - 1)
+        else:
+            v = ctx.fresh("v", 0, (1 << (8 * width)) - 1)
         for c in ((param or {}).get("special", {}) if isinstance(param, dict) else {}):
             ctx.assume(E.ne(v, c))          # codes with a textual meaning are not plain numbers
         st, raw = call(cls.value_to_raw, v)
@@ -270,6 +307,11 @@ def h_layout(ctx):
         types = [l.type_.name for l in cls.locations]
         want = [mtype] * width if isinstance(mtype, str) else [mtype[0]] + [mtype[1]] * (width - 1)
         ctx.prove(types == want, "memory types %s, table says %s" % (sorted(set(types)), mtype), key=tag + "/memtype")
+        have = (bool(getattr(cls, "mask_supported", False)), bool(getattr(cls, "tmask_supported", False)),
+                getattr(cls, "min_value", None), getattr(cls, "max_value", None))
+        ctx.prove(have == MM.flags(name), "MASK/TMASK support and limits %r, table says %r" % (have, MM.flags(name)),
+                  key=tag + "/flags")
+        ctx.prove(not getattr(cls, "signed", False), "declared signed; no value of these banks is", key=tag + "/signed")
     for bname, (mod, number, last, has_lock, has_latch) in MM.BANK_HEADERS.items():
         b = getattr(importlib.import_module(mod), bname, None)
         tag = bname
@@ -301,6 +343,10 @@ def h_layout(ctx):
 
 def cases(tier):
     cs = [Case("layout", h_layout, {})]
+    for i, (row, cls, flags, signed) in enumerate(SYN):
+        cs.append(Case("decode-synthetic-%s" % row[2], h_decode, {"idx": i, "synthetic": True}, width=128))
+        cs.append(Case("inverse-synthetic-%s" % row[2], h_inverse, {"idx": i, "strlen": 0, "synthetic": True},
+                       width=128))
     for i, r in enumerate(MM.ROWS):
         cs.append(Case("decode-%s-%s" % (r[1], r[2]), h_decode, {"idx": i}, width=128))
         if r[7] == "num":
